@@ -6,8 +6,8 @@ SYS_TRUST = ["harness/core orchestrator (threads parked at the fastrace_verif yi
              "modelled, not verified: rtrb ring as an atomic FIFO with is_abandoned, fastant clock as a logical clock, "
              "parking_lot mutexes as mutual exclusion, HashMap order (reports compared as sorted lists)"]
 
-def sysprop(coq, profiles, quick_n, thorough_n, rule, assumptions=None, release_too=False):
-    streams = [S.sys_stream_for("sys", profiles, quick_n, thorough_n)]
+def sysprop(coq, profiles, quick_n, thorough_n, rule, assumptions=None, release_too=False, extra=None):
+    streams = [S.sys_stream_for("sys", profiles, quick_n, thorough_n)] + (extra or [])
     if release_too:
         streams.append(S.sys_stream_for("sysrel", profiles[:2], max(2, quick_n // 3), thorough_n // 2, release=True, shards_per_profile=4))
     return {"coq": coq, "streams": streams, "replay_sub": "sys", "rule": rule,
@@ -31,15 +31,22 @@ PROPS = {
         "assumptions": ["std's integer parsing/formatting is re-modelled (Model/Codec.v), not verified",
                         "absence of panics is checked by catch_unwind on every generated input, not proved"],
     },
-    "C01": sysprop(["C01"], ["default", "exit", "local"], 250, 4000, GEN_RULE),
-    "C07": sysprop(["C07"], ["mixed", "overload", "adapters", "local", "exit"], 200, 3000, GEN_RULE, release_too=True),
+    "C01": sysprop(["C01"], ["default", "exit", "local"], 250, 4000, GEN_RULE + "; plus live scenarios with the real background "
+                   "thread (20 ms interval) and the real flush(): 1-3 worker threads, hand-off of spans, exit right after finishing; "
+                   "delivery without any further call within 3 s, or by the return of flush()",
+                   extra=[S.verdict_stream_for("live", "core", "live", 12, 300, shards=4)]),
+    "C07": sysprop(["C07"], ["mixed", "overload", "adapters", "local", "exit"], 200, 3000, GEN_RULE + "; plus tracing calls issued "
+                   "from a thread-local destructor registered before / after fastrace's own thread-locals", release_too=True,
+                   extra=[S.verdict_stream_for("teardown", "core", "teardown", 40, 1000, shards=4)]),
     "C02": sysprop(["C02"], ["mixed", "default", "local", "adapters"], 250, 4000, GEN_RULE),
     "C05": sysprop(["C05"], ["mixed", "default", "cancelable", "local"], 250, 4000, GEN_RULE),
     "C06": sysprop(["C06"], ["default", "cancelable", "mixed", "local"], 250, 4000, GEN_RULE),
     "C11": sysprop(["C11"], ["mixed", "local", "adapters"], 250, 4000, GEN_RULE),
     "C13": sysprop(["C13"], ["adapters", "cancelable", "mixed"], 250, 4000, GEN_RULE),
     "C14": sysprop(["C14"], ["adapters", "cancelable", "mixed"], 250, 4000, GEN_RULE),
-    "C16": sysprop(["C16"], ["mixed", "local", "default"], 250, 4000, GEN_RULE),
+    "C16": sysprop(["C16"], ["mixed", "local", "default"], 250, 4000, GEN_RULE + "; plus random programs over the whole public API "
+                   "against fastrace built WITHOUT the enable feature (no reporter call, no thread, no context, no closure invoked)",
+                   extra=[S.verdict_stream_for("disabled", "disabled", "run", 60, 2000, flags="", shards=4, binary="vdisabled")]),
     "C17": sysprop(["C17"], ["mixed", "local", "default"], 250, 4000, GEN_RULE),
     "C15": {"coq": ["C15"], "streams": [S.twins_stream], "replay_sub": "sys",
             "rule": "catalogue of 13 function shapes (sync with early return / ? / panic / generic with lifetime / &mut self method; "
